@@ -259,7 +259,7 @@ theorem drain_dfs (hT : TopOK top) (hTop : ∀ g a, DfsG defs g → DfsS defs (t
   exact ⟨n, by rw [hy, drain_dfs_exact hT hTop n hs h hy]⟩
 
 /-- `start` of a depth-first goal is a depth-first stream, at every level -/
-theorem start_dfs (pf : Nat) (hTop : ∀ g a, DfsG defs g → DfsS defs (top g a)) (g : Goal St K) (a : St)
+theorem start_dfs (hD : DfsDefs defs) (pf : Nat) (hTop : ∀ g a, DfsG defs g → DfsS defs (top g a)) (g : Goal St K) (a : St)
     (hg : DfsG defs g) : DfsS defs (start defs top pf g a) := by
   induction hg generalizing a with
   | succeed => simp only [start]; exact .unit _
@@ -270,15 +270,15 @@ theorem start_dfs (pf : Nat) (hTop : ∀ g a, DfsG defs g → DfsS defs (top g a
   | disjD h1 h2 => simp only [start]; exact .lazy (.mplusD (.pause h1) (.pause h2))
   | altD h1 h2 ih1 ih2 => simp only [start]; exact mplusD_dfs (ih1 a) (.delay (ih2 a))
   | fresh h => simp only [start]; exact .lazy (.pause h)
-  | call h => simp only [start]; exact hTop _ _ (h _)
+  | call => simp only [start]; exact hTop _ _ (hD _ _)
 
-theorem solveAt_dfs (pf n : Nat) (g : Goal St K) (a : St) (hg : DfsG defs g) :
+theorem solveAt_dfs (hD : DfsDefs defs) (pf n : Nat) (g : Goal St K) (a : St) (hg : DfsG defs g) :
     DfsS defs (solveAt defs pf n g a) := by
   induction n generalizing g a with
   | zero => exact .lazy (.pause hg)
-  | succ n ih => exact start_dfs defs _ pf (fun g a hg => ih g a hg) g a hg
+  | succ n ih => exact start_dfs defs _ hD pf (fun g a hg => ih g a hg) g a hg
 
-theorem start_bfs (pf : Nat) (hTop : ∀ g a, BfsG defs g → BfsS defs (top g a)) (g : Goal St K) (a : St)
+theorem start_bfs (hD : BfsDefs defs) (pf : Nat) (hTop : ∀ g a, BfsG defs g → BfsS defs (top g a)) (g : Goal St K) (a : St)
     (hg : BfsG defs g) : BfsS defs (start defs top pf g a) := by
   induction hg generalizing a with
   | succeed => simp only [start]; exact .unit _
@@ -303,13 +303,13 @@ theorem start_bfs (pf : Nat) (hTop : ∀ g a, BfsG defs g → BfsS defs (top g a
     split
     · exact .empty
     exact .lazy (.pause h)
-  | call h => simp only [start]; exact hTop _ _ (h _)
+  | call => simp only [start]; exact hTop _ _ (hD _ _)
 
-theorem solveAt_bfs (pf n : Nat) (g : Goal St K) (a : St) (hg : BfsG defs g) :
+theorem solveAt_bfs (hD : BfsDefs defs) (pf n : Nat) (g : Goal St K) (a : St) (hg : BfsG defs g) :
     BfsS defs (solveAt defs pf n g a) := by
   induction n generalizing g a with
   | zero => exact .lazy (.pause hg)
-  | succ n ih => exact start_bfs defs _ pf (fun g a hg => ih g a hg) g a hg
+  | succ n ih => exact start_bfs defs _ hD pf (fun g a hg => ih g a hg) g a hg
 
 /-- FAIRNESS of interleaving search: every answer of an interleaving stream — however many other
     branches produce infinitely many answers or diverge silently — is delivered after finitely many steps -/
@@ -328,7 +328,7 @@ variable (defs : K → St → St × Goal St K) (pf M : Nat)
 
 /-- Reference semantics, depth-first goals: whenever the textbook evaluation terminates with `xs`, the
     stream the engine starts from has exactly the answer list `xs` (Prolog order), at every level. -/
-theorem ref_dfs (n : Nat) (g : Goal St K) (a : St) (xs : List St) (hg : DfsG defs g)
+theorem ref_dfs (hD : DfsDefs defs) (n : Nat) (g : Goal St K) (a : St) (xs : List St) (hg : DfsG defs g)
     (h : evalRef defs n g a = some xs) (m : Nat) :
     AnsS (solveAt defs pf (M + 1)) (solveAt defs pf (m + 1) g a) xs := by
   have hT : TopOK (solveAt defs pf (M + 1)) := topOK_solveAt defs pf M
@@ -380,12 +380,12 @@ theorem ref_dfs (n : Nat) (g : Goal St K) (a : St) (xs : List St) (hg : DfsG def
       simp only [evalRef] at h
       simp only [solveAt, start]
       exact .lazy (.pause (ih _ _ _ h1 h M))
-    | call hk =>
+    | call =>
       simp only [evalRef] at h
       simp only [solveAt, start]
       cases m with
-      | zero => simp only [solveAt]; exact .lazy (.pause (ih _ _ _ (hk a) h M))
-      | succ m => exact ih _ _ _ (hk a) h m
+      | zero => simp only [solveAt]; exact .lazy (.pause (ih _ _ _ (hD _ a) h M))
+      | succ m => exact ih _ _ _ (hD _ a) h m
 
 /-- Reference semantics, pure goals of either kind: the answer list is a permutation of the textbook one. -/
 theorem ref_perm (n : Nat) (g : Goal St K) (a : St) (xs : List St)
